@@ -17,6 +17,15 @@ theorem NoPanicRes.ok {ε α} (a : α) : NoPanicRes (Res.ok a : Res ε α) := tr
 theorem NoPanicRes.err {ε α} (e : ε) : NoPanicRes (Res.err e : Res ε α) := trivial
 theorem NoPanicRes.unmodelled {ε α} (w : String) : NoPanicRes (Res.unmodelled w : Res ε α) := trivial
 
+/-- `NoPanicRes.bind` where the continuation only matters on the value actually produced -/
+theorem NoPanicRes.bind' {ε α β} {x : Res ε α} {f : α → Res ε β} (hx : NoPanicRes x)
+    (hf : ∀ a, x = .ok a → NoPanicRes (f a)) : NoPanicRes (x.bind f) := by
+  cases x with
+  | ok a => exact hf a rfl
+  | err e => trivial
+  | panic w => exact hx
+  | unmodelled w => trivial
+
 /-! ## `fmt.Sprint` -/
 
 theorem fmtFloatG_noPanic (k : FltKind) (q : Rat) : NoPanicRes (fmtFloatG k q) := by
